@@ -1351,6 +1351,30 @@ func (c *Check) confirm(v *Violation) *Violation {
 			}
 		}
 	}
+	if c.prop == "C13" && strings.HasPrefix(v.Class, "pagination-leak:") && v.Task >= 0 {
+		// attribution: the same plan with pagination skipped (everything else unchanged: entry point,
+		// delivery, sink) must differ from this run outside PaginationInfo — otherwise the pagination
+		// options are not what makes the result differ from the reference (an entry-point or delivery
+		// matter, judged under C11)
+		q := clonePlan(v.Plan)
+		for i := range q.Options {
+			q.Options[i].Skip = true
+			q.Options[i].Algo = 0
+		}
+		a, b := c.env.Run(v.Plan), c.env.Run(q)
+		if a.Outcome != nil && b.Outcome != nil {
+			for _, x := range a.Outcome.Ops {
+				for _, y := range b.Outcome.Ops {
+					if x.Task == v.Task && x.Op == v.Op && y.Task == v.Task && y.Op == v.Op && x.Rec != nil && y.Rec != nil {
+						if stripPagination(x.Rec).Digest() == stripPagination(y.Rec).Digest() {
+							c.count("dropped_not_the_pagination_options_doing", 1)
+							return nil
+						}
+					}
+				}
+			}
+		}
+	}
 	if c.prop == "C13" && v.Task >= 0 {
 		nops := 0
 		for _, t := range v.Plan.Tasks {
